@@ -150,3 +150,61 @@ impl notify::EventHandler for NotifyEventHandler {
         }
     }
 }
+
+/// Verification hooks: access to the private pieces of the filesystem watcher.
+#[cfg(assets_manager_verif)]
+#[doc(hidden)]
+#[allow(missing_docs, missing_debug_implementations)]
+pub mod verif {
+    use super::super::{EventSender, Events};
+    use crate::source::OwnedDirEntry;
+    use std::path::{Path, PathBuf};
+
+    /// The receiving end of a test `EventSender`.
+    pub struct EventReceiver(crossbeam_channel::Receiver<Events>);
+
+    impl EventReceiver {
+        /// Returns the next message (one per `send` / `send_multiple`), if any.
+        pub fn try_recv(&self) -> Option<Vec<OwnedDirEntry>> {
+            let mut out = Vec::new();
+            self.0.try_recv().ok()?.for_each(|e| out.push(e));
+            Some(out)
+        }
+
+        /// Like `try_recv`, but waits up to `timeout`.
+        pub fn recv_timeout(&self, timeout: std::time::Duration) -> Option<Vec<OwnedDirEntry>> {
+            let mut out = Vec::new();
+            self.0.recv_timeout(timeout).ok()?.for_each(|e| out.push(e));
+            Some(out)
+        }
+    }
+
+    /// Creates an `EventSender` whose messages can be read back.
+    pub fn event_channel() -> (EventSender, EventReceiver) {
+        let (tx, rx) = crossbeam_channel::unbounded();
+        (EventSender(tx), EventReceiver(rx))
+    }
+
+    /// The real path -> entry translation used by the watcher.
+    pub fn id_of_path(root: &Path, path: &Path) -> Option<OwnedDirEntry> {
+        super::id_of_path(&mut Default::default(), root, path)
+    }
+
+    /// The real `notify` event handler, without an OS watcher attached.
+    pub struct Handler(super::NotifyEventHandler);
+
+    impl Handler {
+        pub fn new(roots: Vec<PathBuf>, events: EventSender) -> Self {
+            Self(super::NotifyEventHandler {
+                roots,
+                events,
+                id_builder: Default::default(),
+                watcher: None,
+            })
+        }
+
+        pub fn handle_event(&mut self, event: notify::Result<notify::Event>) {
+            notify::EventHandler::handle_event(&mut self.0, event)
+        }
+    }
+}
